@@ -88,6 +88,10 @@ def cases(tier):
                     continue
                 for src in ("stored", "linked", "alias"):
                     yield {"k": "range", "ticks": [str(t) for t in ticks], "src": src, "wide": True}
+    # ticks of large magnitude that lie closer together than 1e-5 of their value (dyadic: 1000 + k/256)
+    for sub in ([0, 1, 2, 3], [0, 2, 3], [1, 1, 3], [0, 3]):
+        for src in ("stored", "linked", "alias"):
+            yield {"k": "range", "ticks": [str(Fr(1000) + Fr(k, 256)) for k in sub], "src": src, "close": True}
     for n in range(0, 6 if tier == "thorough" else 4):
         yield {"k": "set", "n": n}
 
@@ -421,6 +425,8 @@ def run_range(case, r):
             return ref_finite(ticks, p, mode)
 
         POS = RANGE_POS_T if case.get("wide") else RANGE_POS
+        if case.get("close"):
+            POS = [Fr(999)] + [Fr(1000) + Fr(k, 512) for k in range(-1, 8)] + [Fr(1001)]
         for p in POS:
             cls = pcls_finite(ticks, p) + "|" + rep
             for mname, mode in MODES:
